@@ -167,4 +167,261 @@ theorem utf8_nonempty_len (cp : Nat) (h : cp < 0x110000) :
       · rw [if_pos h3]; exact ⟨_, _, rfl, len3 _ (by omega)⟩
       · rw [if_neg h3]; exact ⟨_, _, rfl, len4 _ (by omega)⟩
 
+/-! ### `isValid` computes the structural well-formedness predicate `Spec.wellFormed` -/
+theorem utf8Length_class : ∀ b, b < 256 → utf8Length b =
+    (if b < 0x80 then 1 else if b < 0xC0 then 0 else if b < 0xE0 then 2 else if b < 0xF0 then 3
+     else if b < 0xF8 then 4 else 0) := by decide +kernel
+
+theorem cont_iff : ∀ a, a < 256 → ((a &&& 0xc0 = 0x80) ↔ Spec.isCont a = true) := by decide +kernel
+
+theorem mask2_iff (a b : Nat) (ha : a < 256) (_hb : b < 256) :
+    ((a ||| (b <<< 8)) &&& 0xc0c0 = 0x8080) ↔ (a &&& 0xc0 = 0x80 ∧ b &&& 0xc0 = 0x80) := by
+  rw [or_shl8 a b ha]
+  have lo : ((a + b * 256) &&& 0xc0c0) % 2 ^ 8 = a &&& 0xc0 := by
+    rw [Nat.and_mod_two_pow]
+    have : (a + b * 256) % 2 ^ 8 = a := by omega
+    rw [this]
+  have hi : ((a + b * 256) &&& 0xc0c0) / 2 ^ 8 = b &&& 0xc0 := by
+    rw [Nat.and_div_two_pow]
+    have : (a + b * 256) / 2 ^ 8 = b := by omega
+    rw [this]
+  have h1 : a &&& 0xc0 ≤ 0xc0 := Nat.and_le_right
+  omega
+
+theorem mask3_iff (a b c : Nat) (ha : a < 256) (hb : b < 256) (_hc : c < 256) :
+    ((a ||| (b <<< 8) ||| (c <<< 16)) &&& 0xc0c0c0 = 0x808080) ↔
+      (a &&& 0xc0 = 0x80 ∧ b &&& 0xc0 = 0x80 ∧ c &&& 0xc0 = 0x80) := by
+  rw [or_shl8 a b ha, or_shl16 _ c (by omega)]
+  have lo : ((a + b * 256 + c * 65536) &&& 0xc0c0c0) % 2 ^ 16 = (a ||| (b <<< 8)) &&& 0xc0c0 := by
+    rw [Nat.and_mod_two_pow]
+    have : (a + b * 256 + c * 65536) % 2 ^ 16 = a + b * 256 := by omega
+    rw [this, ← or_shl8 a b ha]
+  have hi : ((a + b * 256 + c * 65536) &&& 0xc0c0c0) / 2 ^ 16 = c &&& 0xc0 := by
+    rw [Nat.and_div_two_pow]
+    have : (a + b * 256 + c * 65536) / 2 ^ 16 = c := by omega
+    rw [this]
+  have m2 := mask2_iff a b ha hb
+  have h1 : (a ||| (b <<< 8)) &&& 0xc0c0 ≤ 0xc0c0 := Nat.and_le_right
+  omega
+
+
+theorem drop_cons {mem : List Nat} {p : Nat} (h : p < mem.length) : mem.drop p = mem[p] :: mem.drop (p + 1) :=
+  List.drop_eq_getElem_cons h
+
+theorem loop_end (mem : List Nat) (p len : Nat) (h : ¬ p < mem.length) :
+    isValidLoop mem mem.length p len = .ok true := by
+  rw [isValidLoop, dif_neg h]
+
+/-- one iteration of the validator, by class of the lead byte -/
+theorem loop_step (mem : List Nat) (p len : Nat) (hp : p < mem.length) (hl : p + len = mem.length)
+    (hb : mem[p] < 256) :
+    isValidLoop mem mem.length p len =
+      (if mem[p] < 0x80 then isValidLoop mem mem.length (p + 1) (len - 1)
+       else if mem[p] < 0xC0 then .ok false
+       else if mem[p] < 0xE0 then
+         (if h : p + 1 < mem.length then
+            (if mem[p + 1] &&& 0xc0 = 0x80 then isValidLoop mem mem.length (p + 2) (len - 2) else .ok false)
+          else .ok false)
+       else if mem[p] < 0xF0 then
+         (if h : p + 2 < mem.length then
+            (if (mem[p + 1] ||| (mem[p + 2] <<< 8)) &&& 0xc0c0 = 0x8080 then
+               isValidLoop mem mem.length (p + 3) (len - 3) else .ok false)
+          else .ok false)
+       else if mem[p] < 0xF8 then
+         (if h : p + 3 < mem.length then
+            (if (mem[p + 1] ||| (mem[p + 2] <<< 8) ||| (mem[p + 3] <<< 16)) &&& 0xc0c0c0 = 0x808080 then
+               isValidLoop mem mem.length (p + 4) (len - 4) else .ok false)
+          else .ok false)
+       else .ok false) := by
+  rw [isValidLoop, dif_pos hp, rdR_ok hp (Nat.le_refl _), Res.bind_ok]
+  simp only []
+  rw [utf8Length_class _ hb]
+  by_cases h1 : mem[p] < 0x80
+  · have : ¬ len < 1 := by omega
+    simp [h1, this]
+  · by_cases h2 : mem[p] < 0xC0
+    · simp [h1, h2]
+    · by_cases h3 : mem[p] < 0xE0
+      · by_cases hn : p + 1 < mem.length
+        · have : ¬ len < 2 := by omega
+          simp [h1, h2, h3, hn, this, rdR_ok hn (Nat.le_refl _)]
+        · have : len < 2 := by omega
+          simp [h1, h2, h3, hn, this]
+      · by_cases h4 : mem[p] < 0xF0
+        · by_cases hn : p + 2 < mem.length
+          · have : ¬ len < 3 := by omega
+            have hn1 : p + 1 < mem.length := by omega
+            simp [h1, h2, h3, h4, hn, this, rdR_ok hn (Nat.le_refl _), rdR_ok hn1 (Nat.le_refl _)]
+          · have : len < 3 := by omega
+            simp [h1, h2, h3, h4, hn, this]
+        · by_cases h5 : mem[p] < 0xF8
+          · by_cases hn : p + 3 < mem.length
+            · have : ¬ len < 4 := by omega
+              have hn1 : p + 1 < mem.length := by omega
+              have hn2 : p + 2 < mem.length := by omega
+              simp [h1, h2, h3, h4, h5, hn, this, rdR_ok hn (Nat.le_refl _), rdR_ok hn1 (Nat.le_refl _),
+                rdR_ok hn2 (Nat.le_refl _)]
+            · have : len < 4 := by omega
+              simp [h1, h2, h3, h4, h5, hn, this]
+          · simp [h1, h2, h3, h4, h5]
+
+
+theorem drop_nil {mem : List Nat} {p : Nat} (h : ¬ p < mem.length) : mem.drop p = [] :=
+  List.drop_eq_nil_of_le (by omega)
+
+
+theorem wf_nil : Spec.wellFormed [] = true := by rw [Spec.wellFormed]
+
+theorem wf_cons2 (b c1 : Nat) (r : List Nat) (h : Spec.seqLen b = 2) :
+    Spec.wellFormed (b :: c1 :: r) = (Spec.isCont c1 && Spec.wellFormed r) := by
+  rw [Spec.wellFormed, h]
+  simp
+
+theorem wf_cons3 (b c1 c2 : Nat) (r : List Nat) (h : Spec.seqLen b = 3) :
+    Spec.wellFormed (b :: c1 :: c2 :: r) = (Spec.isCont c1 && Spec.isCont c2 && Spec.wellFormed r) := by
+  rw [Spec.wellFormed, h]
+  simp [Bool.and_assoc]
+
+theorem wf_cons4 (b c1 c2 c3 : Nat) (r : List Nat) (h : Spec.seqLen b = 4) :
+    Spec.wellFormed (b :: c1 :: c2 :: c3 :: r) =
+      (Spec.isCont c1 && Spec.isCont c2 && Spec.isCont c3 && Spec.wellFormed r) := by
+  rw [Spec.wellFormed, h]
+  simp [Bool.and_assoc]
+
+theorem wf_cons1 (b : Nat) (r : List Nat) (h : Spec.seqLen b = 1) :
+    Spec.wellFormed (b :: r) = Spec.wellFormed r := by
+  rw [Spec.wellFormed, h]
+  simp
+
+theorem wf_cons0 (b : Nat) (r : List Nat) (h : Spec.seqLen b = 0) : Spec.wellFormed (b :: r) = false := by
+  rw [Spec.wellFormed, h]
+  simp
+
+theorem wf_short (b : Nat) (r : List Nat) (h : r.length + 1 < Spec.seqLen b) : Spec.wellFormed (b :: r) = false := by
+  rw [Spec.wellFormed]
+  have : ¬ Spec.seqLen b ≤ r.length + 1 := by omega
+  simp [this]
+
+theorem wf_step (mem : List Nat) (p : Nat) (hp : p < mem.length) :
+    Spec.wellFormed (mem.drop p) =
+      (if mem[p] < 0x80 then Spec.wellFormed (mem.drop (p + 1))
+       else if mem[p] < 0xC0 then false
+       else if mem[p] < 0xE0 then
+         (if h : p + 1 < mem.length then Spec.isCont mem[p + 1] && Spec.wellFormed (mem.drop (p + 2)) else false)
+       else if mem[p] < 0xF0 then
+         (if h : p + 2 < mem.length then
+            Spec.isCont mem[p + 1] && Spec.isCont mem[p + 2] && Spec.wellFormed (mem.drop (p + 3)) else false)
+       else if mem[p] < 0xF8 then
+         (if h : p + 3 < mem.length then
+            Spec.isCont mem[p + 1] && Spec.isCont mem[p + 2] && Spec.isCont mem[p + 3] &&
+              Spec.wellFormed (mem.drop (p + 4)) else false)
+       else false) := by
+  rw [drop_cons hp]
+  have hlen : (mem.drop (p + 1)).length = mem.length - (p + 1) := List.length_drop
+  by_cases h1 : mem[p] < 0x80
+  · rw [if_pos h1, wf_cons1 _ _ (by unfold Spec.seqLen; rw [if_pos h1])]
+  · rw [if_neg h1]
+    by_cases h2 : mem[p] < 0xC0
+    · rw [if_pos h2, wf_cons0 _ _ (by unfold Spec.seqLen; rw [if_neg h1, if_pos h2])]
+    · rw [if_neg h2]
+      by_cases h3 : mem[p] < 0xE0
+      · have hs : Spec.seqLen mem[p] = 2 := by unfold Spec.seqLen; rw [if_neg h1, if_neg h2, if_pos h3]
+        rw [if_pos h3]
+        by_cases hn : p + 1 < mem.length
+        · rw [dif_pos hn, drop_cons hn, wf_cons2 _ _ _ hs]
+        · rw [dif_neg hn, wf_short _ _ (by rw [hs, hlen]; omega)]
+      · rw [if_neg h3]
+        by_cases h4 : mem[p] < 0xF0
+        · have hs : Spec.seqLen mem[p] = 3 := by
+            unfold Spec.seqLen; rw [if_neg h1, if_neg h2, if_neg h3, if_pos h4]
+          rw [if_pos h4]
+          by_cases hn : p + 2 < mem.length
+          · have hn1 : p + 1 < mem.length := by omega
+            rw [dif_pos hn, drop_cons hn1, drop_cons hn, wf_cons3 _ _ _ _ hs]
+          · rw [dif_neg hn, wf_short _ _ (by rw [hs, hlen]; omega)]
+        · rw [if_neg h4]
+          by_cases h5 : mem[p] < 0xF8
+          · have hs : Spec.seqLen mem[p] = 4 := by
+              unfold Spec.seqLen; rw [if_neg h1, if_neg h2, if_neg h3, if_neg h4, if_pos h5]
+            rw [if_pos h5]
+            by_cases hn : p + 3 < mem.length
+            · have hn1 : p + 1 < mem.length := by omega
+              have hn2 : p + 2 < mem.length := by omega
+              rw [dif_pos hn, drop_cons hn1, drop_cons hn2, drop_cons hn, wf_cons4 _ _ _ _ _ hs]
+            · rw [dif_neg hn, wf_short _ _ (by rw [hs, hlen]; omega)]
+          · rw [if_neg h5, wf_cons0 _ _ (by
+              unfold Spec.seqLen; rw [if_neg h1, if_neg h2, if_neg h3, if_neg h4, if_neg h5])]
+
+theorem isCont_false {a : Nat} (ha : a < 256) (h : ¬ a &&& 0xc0 = 0x80) : Spec.isCont a = false := by
+  cases h' : Spec.isCont a with
+  | false => rfl
+  | true => exact absurd ((cont_iff a ha).mpr h') h
+
+theorem isValidLoop_spec (mem : List Nat) (hb : ∀ b ∈ mem, b < 256) :
+    ∀ (n p len : Nat), mem.length - p ≤ n → p + len = mem.length →
+      isValidLoop mem mem.length p len = .ok (Spec.wellFormed (mem.drop p)) := by
+  intro n
+  induction n with
+  | zero =>
+    intro p len hn _
+    rw [loop_end mem p len (by omega), drop_nil (by omega), wf_nil]
+  | succ n ih =>
+    intro p len hn hl
+    by_cases hp : p < mem.length
+    · have b256 : ∀ i (h : i < mem.length), mem[i] < 256 := fun i h => hb _ (List.getElem_mem h)
+      rw [loop_step mem p len hp hl (b256 p hp), wf_step mem p hp]
+      by_cases h1 : mem[p] < 0x80
+      · simp only [h1, if_true]; exact ih _ _ (by omega) (by omega)
+      · by_cases h2 : mem[p] < 0xC0
+        · simp only [h1, h2, if_true, if_false]
+        · by_cases h3 : mem[p] < 0xE0
+          · simp only [h1, h2, h3, if_true, if_false]
+            by_cases hn1 : p + 1 < mem.length
+            · rw [dif_pos hn1, dif_pos hn1]
+              by_cases hc : mem[p + 1] &&& 0xc0 = 0x80
+              · rw [if_pos hc, (cont_iff _ (b256 _ hn1)).mp hc, Bool.true_and]
+                exact ih _ _ (by omega) (by omega)
+              · rw [if_neg hc, isCont_false (b256 _ hn1) hc, Bool.false_and]
+            · rw [dif_neg hn1, dif_neg hn1]
+          · by_cases h4 : mem[p] < 0xF0
+            · simp only [h1, h2, h3, h4, if_true, if_false]
+              by_cases hn2 : p + 2 < mem.length
+              · have hn1 : p + 1 < mem.length := by omega
+                rw [dif_pos hn2, dif_pos hn2]
+                have m := mask2_iff _ _ (b256 _ hn1) (b256 _ hn2)
+                by_cases hc : (mem[p + 1] ||| (mem[p + 2] <<< 8)) &&& 0xc0c0 = 0x8080
+                · obtain ⟨c1, c2⟩ := m.mp hc
+                  rw [if_pos hc, (cont_iff _ (b256 _ hn1)).mp c1, (cont_iff _ (b256 _ hn2)).mp c2]
+                  simp only [Bool.true_and]
+                  exact ih _ _ (by omega) (by omega)
+                · rw [if_neg hc]
+                  by_cases c1 : mem[p + 1] &&& 0xc0 = 0x80
+                  · have c2 : ¬ mem[p + 2] &&& 0xc0 = 0x80 := fun c2 => hc (m.mpr ⟨c1, c2⟩)
+                    rw [isCont_false (b256 _ hn2) c2]; simp
+                  · rw [isCont_false (b256 _ hn1) c1]; simp
+              · rw [dif_neg hn2, dif_neg hn2]
+            · by_cases h5 : mem[p] < 0xF8
+              · simp only [h1, h2, h3, h4, h5, if_true, if_false]
+                by_cases hn3 : p + 3 < mem.length
+                · have hn1 : p + 1 < mem.length := by omega
+                  have hn2 : p + 2 < mem.length := by omega
+                  rw [dif_pos hn3, dif_pos hn3]
+                  have m := mask3_iff _ _ _ (b256 _ hn1) (b256 _ hn2) (b256 _ hn3)
+                  by_cases hc : (mem[p + 1] ||| (mem[p + 2] <<< 8) ||| (mem[p + 3] <<< 16)) &&& 0xc0c0c0 = 0x808080
+                  · obtain ⟨c1, c2, c3⟩ := m.mp hc
+                    rw [if_pos hc, (cont_iff _ (b256 _ hn1)).mp c1, (cont_iff _ (b256 _ hn2)).mp c2,
+                      (cont_iff _ (b256 _ hn3)).mp c3]
+                    simp only [Bool.true_and]
+                    exact ih _ _ (by omega) (by omega)
+                  · rw [if_neg hc]
+                    by_cases c1 : mem[p + 1] &&& 0xc0 = 0x80
+                    · by_cases c2 : mem[p + 2] &&& 0xc0 = 0x80
+                      · have c3 : ¬ mem[p + 3] &&& 0xc0 = 0x80 := fun c3 => hc (m.mpr ⟨c1, c2, c3⟩)
+                        rw [isCont_false (b256 _ hn3) c3]; simp
+                      · rw [isCont_false (b256 _ hn2) c2]; simp
+                    · rw [isCont_false (b256 _ hn1) c1]; simp
+                · rw [dif_neg hn3, dif_neg hn3]
+              · simp only [h1, h2, h3, h4, h5, if_false]
+    · rw [loop_end mem p len hp, drop_nil hp, wf_nil]
+
 end Nstd.Codec
